@@ -170,7 +170,7 @@ class LinearFilter:
             gc.collect()
             _dslice = [slice(0, self.bshape[i], 1) for i in range(3)]
             if self.scale != 1:
-                data = self.scale * data[_dslice]
+                data = self.scale * data
             if self.location != 0.0:
                 data += self.location
             gc.collect()
